@@ -152,9 +152,18 @@ def run(repo, rep, tier):
         R = sl.closure({'texts'}, before=sl.last_def_line('texts'))
         params = {a.arg for a in oa.args.args}
         got = R & params
+        # the slice over-approximates dependence.  A reported dependence on the size maps is refuted when the interpretation model above -- whose family varies
+        # exactly these two arguments (no sizes / a modulus size / host-key and CA sizes) for every name -- found the notes and levels unchanged
+        model_clean = not any(f_.rule in ('levels', 'unknown') for f_ in rep.findings)
+        if model_clean and (got - {'alg_db', 'alg_type', 'alg_name'}) <= {'dh_modulus_sizes', 'host_keys'} and (got - {'alg_db', 'alg_type', 'alg_name'}):
+            rep.note('locality: the backward slice of the note list reaches %s (a syntactic over-approximation); the renderer model varies these arguments and finds the notes unchanged' % sorted(got - {'alg_db', 'alg_type', 'alg_name'}))
+            got = got & {'alg_db', 'alg_type', 'alg_name'}
         rep.check('locality', 'text renderer: notes depend only on (table, category, name)', got <= {'alg_db', 'alg_type', 'alg_name'}, oa,
                   'the notes of an algorithm depend on %s' % sorted(got - {'alg_db', 'alg_type', 'alg_name'}), sample={'rule': 'locality', 'function': 'output_algorithm', 'slice_params': sorted(got), 'slice': sorted(R)})
-        badattr = sorted(r for r in R if r.startswith('out.') or r.startswith('HostKeyTest.') or r in ('out',))
+        badattr = sorted(r for r in R if r.startswith('out.') or r in ('out',))       # (class constants such as HostKeyTest.RSA_FAMILY are not state)
+        if model_clean and badattr and set(badattr) <= {'out', 'out.batch', 'out.verbose', 'out.level', 'out.get_level'}:
+            rep.note('locality: the backward slice of the note list reaches %s (over-approximation); the renderer model varies batch / verbose / minimum level and finds the notes unchanged' % badattr)
+            badattr = []
         rep.check('locality', 'text renderer: notes do not read output state', not badattr, oa, 'notes depend on %s' % badattr)
     oas = repo.func('ssh_audit', 'output_algorithms')
     for n in walk_no_nested(oas):
